@@ -729,4 +729,16 @@ def parseFileFull (toks : List (RawKind × Bool)) : Option ParseFullOut :=
       | none => none
       | some lines => some { kinds := finalKinds, lines := lines, traces := traces, passLines := passLines }
 
+/-- The line-break flags as the parser can read them.  `parse_asm_instructions` is the only reader of a token's
+    leading whitespace, and it runs only after an `asm` keyword has been consumed, so the flag of a token up to and
+    including the first `asm` keyword of the file is never read: it is masked out here, which makes "the parse does
+    not depend on where the lines break outside assembler code" true by construction (C06).  That the mask changes
+    nothing is part of what the `pfull` and `full` correspondences check on every case. -/
+def maskFlags : Bool → List (RawKind × Bool) → List (RawKind × Bool)
+  | _, [] => []
+  | seen, (k, b) :: r => (k, seen && b) :: maskFlags (seen || k == .rKeyword .kAsm) r
+
+/-- `parse_file` on the masked flags -/
+def parseFileMasked (toks : List (RawKind × Bool)) : Option ParseFullOut := parseFileFull (maskFlags false toks)
+
 end Pasfmt
